@@ -129,16 +129,29 @@ class Driver(object):
     def _apply(self, ev):
         if ev.startswith('Out'):
             # 'Out' = producer 0 writes output now, 'Out<k>' = producer k does (a write of a producer the
-            # configuration does not have is a no-op)
+            # configuration does not have is a no-op; so is, in stageIn mode, the write of a producer that has finished)
             i = int(ev[3:] or 0)
-            if i < len(self.los):
+            if i < len(self.los) and (self.alive is None or self.alive[i]):
                 self.los[i] = self.now_ms
+                self.eff[self.k].append(ev)
+        elif ev.startswith('Fin'):
+            # stageIn mode: producer k finishes - its notifyFinished emits its last state and completes; the REAL
+            # subscription made by ComponentState.stageIn decides whether that finishes "all producers"
+            i = int(ev[3:])
+            if self.alive is not None and i < len(self.alive) and self.alive[i]:
+                self.alive[i] = False
+                self.subjects[i].on_next(({'isAlive': False}, self.prod_states[i]))
+                self.subjects[i].on_completed()
         elif ev == 'Notify':
+            if self.alive is None:
+                self.eff[self.k].append(ev)
             self.eng.notify_all_producers_finished()
         elif ev == 'Kill':
+            self.eff[self.k].append(ev)
             self.kills.append(self.k)
             self.eng.kill()
         elif ev == 'Suicide':
+            self.eff[self.k].append(ev)
             self.fire_suicide()
         else:
             raise ValueError(ev)
@@ -171,6 +184,47 @@ class Driver(object):
             self._apply(ev)
         self.pending_ntf = bool(st['o'].get('ntf'))
 
+    def _stage_in(self, cfg, plist):
+        """stageIn mode: the notification is not scripted; the REAL ComponentState.stageIn (workflow.py) subscribes the
+        real engine to the notifyFinished observables of the producers that are alive (cfg['alive0']) and calls
+        notify_all_producers_finished itself.  Its thread-pool scheduler is replaced by an immediate one."""
+        import experiment.runtime.workflow as W
+        import reactivex.subject
+        import reactivex.scheduler
+        drv = self
+        self.alive = [bool(x) for x in cfg['alive0']]
+        assert len(self.alive) == len(plist)
+        self.subjects = [reactivex.subject.Subject() for _ in plist]
+        self.prod_states = []
+        for i in range(len(plist)):
+            ps = _Obj()
+            ps.notifyFinished = self.subjects[i]
+            ps.isAlive = (lambda i=i: drv.alive[i])
+            ps.specification = types.SimpleNamespace(reference='stage0.prod%d' % i)
+            self.prod_states.append(ps)
+        real_notify = self.eng.notify_all_producers_finished
+
+        def notify():
+            drv.eff[min(drv.k, len(drv.eff) - 1)].append('Notify')
+            return real_notify()
+        self.eng.notify_all_producers_finished = notify
+        cs = _Obj()
+        cs._finishedCalled = False
+        cs.engine = self.eng
+        cs.producers = self.prod_states
+        cs.log = logging.getLogger('verif.c13.cs')
+        cs.specification = types.SimpleNamespace(reference='stage0.obs')
+        cs.repeatingObservable = None
+        cs.repeatingDisposable = None
+        cs._notifyProducersFinished = types.MethodType(W.ComponentState._notifyProducersFinished, cs)
+        saved = W.ComponentState.componentScheduler
+        W.ComponentState.componentScheduler = reactivex.scheduler.ImmediateScheduler()
+        try:
+            W.ComponentState.stageIn(cs, stageData=False)
+        finally:
+            W.ComponentState.componentScheduler = saved
+        self.cs = cs
+
     def run_case(self, cfg, steps):
         """cfg: dict(retries, has_prod, same_stage, prod_rep, check_out, has_delay, interval, t0[, prods])
         prods (optional): list of dict(same_stage, prod_rep), the observer's producers in order; without it there is
@@ -197,6 +251,8 @@ class Driver(object):
         self.kills = []
         self.pending_ntf = False
         self.ntf_mid = []
+        self.eff = [[] for _ in steps]      # what reached the engine, per step (for the property predicate)
+        self.alive = None
 
         def mkprod(i, pc):
             prod = _Obj()
@@ -253,6 +309,8 @@ class Driver(object):
         eng = E.RepeatingEngine(j, taskGenerator=gen)
         eng.emit_now = lambda *a, **k: None
         self.eng = eng
+        if cfg.get('alive0') is not None:
+            self._stage_in(cfg, plist)
 
         real_cm = self.M.CreateMonitor
 
@@ -281,4 +339,4 @@ class Driver(object):
         finally:
             self.M.CreateMonitor = real_cm
         return {'obs': self.obs, 'finished': finished, 'execs': list(self.execs), 'errors': list(self.errors),
-                'nsteps': len(self.obs), 'fired': list(self.fired), 'kills': list(self.kills), 'los': list(self.los)}
+                'nsteps': len(self.obs), 'fired': list(self.fired), 'kills': list(self.kills), 'los': list(self.los), 'eff': [list(e) for e in self.eff]}
